@@ -16,7 +16,7 @@ from ..values import (Const, Sym, CRef, FRef, ERef, Bound, Obj, Tup, App,
                       New, Raise, Coll, walk)
 from ..interp import Interp, Hooks
 from ..printers import flatten, merge
-from ..report import Finding, RuleResult, floor
+from ..report import Finding, RuleResult, floor, Attempts
 
 PROP = 'C18'
 
@@ -398,6 +398,21 @@ def rule_bp3(prog, funcs, seeds):
                         else getattr(lst, 'parts', None)
                     if parts is None:
                         continue
+                    ro = p.heap[lst.oid].reorder if isinstance(lst, Obj) \
+                        else ()
+                    if ro and any(g for part in parts for g in part.gens):
+                        # the names come from a sequence (the parameters of
+                        # the lambda) and are re-ordered before they become
+                        # the variable ordering
+                        r.fail(Finding(
+                            PROP, 'R-BP-3', f.where(), f.short(),
+                            'ordering-reordered:%s' % ','.join(ro),
+                            '%s builds the variable ordering from the names '
+                            'after %s: the order in which the parameters of '
+                            'the lambda are written is lost, so `lambda q, '
+                            'p: ...` and the expression form with ordering '
+                            '[q, p] give different diagrams' % (
+                                f.short(), '/'.join(ro))))
                     for part in parts:
                         n += 1
                         t = _static_type(part.val)
@@ -538,8 +553,11 @@ def node_templates(prog):
     return f, out
 
 
-def _cond_holds(c, pol, kids):
-    """condition of a printer variant on the printed form of a child"""
+def _cond_holds(c, pol, kids, shapes=None):
+    """condition of a printer variant on a child: on its printed form, or on
+    its structure (class of one of its sons)"""
+    shapes = shapes or {}
+
     def val(x):
         if isinstance(x, Const):
             return x.v
@@ -548,6 +566,33 @@ def _cond_holds(c, pol, kids):
                 x.args[0].meta[0] == 'hole':
             return kids[x.args[0].meta[1]]
         raise Inconclusive('R-BP-4', 'printer condition on %r' % (x,), '')
+    if isinstance(c, App) and c.op in ('and', 'or'):
+        rs = [_cond_holds(a, True, kids, shapes) for a in c.args]
+        r = all(rs) if c.op == 'and' else any(rs)
+        return r == pol
+    if isinstance(c, App) and c.op == 'not':
+        return _cond_holds(c.args[0], not pol, kids, shapes)
+    if isinstance(c, App) and c.op == 'isinstance' and \
+            isinstance(c.args[1], CRef):
+        x = c.args[0]
+        # isinstance(child.low / child.high, <node class>)
+        if isinstance(x, App) and x.op == 'attr' and \
+                isinstance(x.args[0], Sym) and x.args[0].meta and \
+                x.args[0].meta[0] == 'hole' and \
+                x.args[1].v in ('low', 'high'):
+            sh = shapes.get(x.args[0].meta[1])
+            if sh is None:
+                raise Inconclusive('R-BP-4', 'printer condition %r on a '
+                                   'child of unknown shape' % (c,), '')
+            kind = sh[0] if x.args[1].v == 'low' else sh[1]
+            cname = c.args[1].ci.name
+            isnt = kind == 'n'
+            r = {'BDDNonTerminalNode': isnt, 'BDDTerminalNode': not isnt,
+                 'BDDNode': True}.get(cname)
+            if r is None:
+                raise Inconclusive('R-BP-4', 'printer condition %r' % (c,),
+                                   '')
+            return r == pol
     if isinstance(c, App) and c.op == 'mcall' and \
             c.args[1].v in ('startswith', 'endswith'):
         r = getattr(val(c.args[0]), c.args[1].v)(
@@ -564,9 +609,9 @@ def _cond_holds(c, pol, kids):
     raise Inconclusive('R-BP-4', 'printer condition %r' % (c,), '')
 
 
-def pick_variant(variants, kids):
+def pick_variant(variants, kids, shapes=None):
     ok = [pieces for (pc, pieces) in variants
-          if all(_cond_holds(c, pol, kids) for (c, pol) in pc)]
+          if all(_cond_holds(c, pol, kids, shapes) for (c, pol) in pc)]
     if len(ok) != 1:
         raise Inconclusive('R-BP-4', '%d printer variants apply to children '
                            '%r' % (len(ok), kids), '')
@@ -585,30 +630,42 @@ def render(pieces, var, kids):
     return s
 
 
+LEAF_SHAPE = ('t0', 't1')       # the node of a variable: (v, 0, 1)
+
+
 def rule_bp4(prog):
     r = RuleResult('R-BP-4', 'node printer: tokens are in the parser\'s case '
                    'table and every embedded child stays one operand under '
                    'Python\'s precedence')
     f, tmpls = node_templates(prog)
-    # the root forms a child can print as: closure of the templates over
-    # simple children, two levels
-    forms = {'p', 'q'}
+    # the forms a child can print as, with the shape (kinds of its sons) of
+    # a node printing that way: closure of the templates over simple
+    # children, two levels
+    forms = {'p': LEAF_SHAPE, 'q': LEAF_SHAPE}
     for _ in range(2):
-        new = set()
+        new = {}
+        cur = sorted(forms)[:6]
         for (kinds, variants) in tmpls:
-            for lo in sorted(forms)[:6]:
-                for hi in sorted(forms)[:6]:
+            for lo in cur:
+                for hi in cur:
                     kids = {0: lo, 1: hi}
-                    new.add(render(pick_variant(variants, kids), 'x', kids))
-        forms = set(sorted(new, key=len)[:14])
-    forms = sorted(forms)
+                    shapes = {0: forms[lo], 1: forms[hi]}
+                    if kinds[0] != 'n':
+                        shapes[0] = None
+                    if kinds[1] != 'n':
+                        shapes[1] = None
+                    txt = render(pick_variant(variants, kids, shapes), 'x',
+                                 kids)
+                    new.setdefault(txt, kinds)
+        forms = {t: new[t] for t in sorted(new, key=len)[:14]}
     seen_keys = set()
     for (kinds, variants) in tmpls:
-        base = {0: 'LOW_', 1: 'HIGH_'}
-        pieces0 = pick_variant(variants, base)
+        leafk = {0: 'p', 1: 'q'}
+        leafs = {0: LEAF_SHAPE, 1: LEAF_SHAPE}
+        pieces0 = pick_variant(variants, leafk, leafs)
         holes = [p for p in pieces0 if isinstance(p, tuple) and
                  p[0] == 'hole']
-        text0 = render(pieces0, 'v', base)
+        text0 = render(pieces0, 'v', {0: 'LOW_', 1: 'HIGH_'})
         try:
             tree0 = ast.parse(text0, mode='eval').body
         except SyntaxError:
@@ -630,18 +687,21 @@ def rule_bp4(prog):
         else:
             r.ok()
         for hole in holes:
-            which = 'LOW_' if hole[1] == 0 else 'HIGH_'
-            for form in forms:
-                kids = dict(base)
+            for form in sorted(forms):
+                kids = dict(leafk)
+                shapes = dict(leafs)
                 kids[hole[1]] = form
-                pieces = pick_variant(variants, kids)
+                shapes[hole[1]] = forms[form]
+                pieces = pick_variant(variants, kids, shapes)
                 text = render(pieces, 'v', kids)
-                # the intended meaning: the embedding with the child as one
-                # operand
-                ref = render(pieces0, 'v', base)
-                want = _subst(ast.parse(ref, mode='eval').body, which,
-                              ast.parse(form, mode='eval').body)
+                # the intended meaning: this embedding with each child as
+                # ONE operand
+                ref = render(pieces, 'v', {0: 'LOW_', 1: 'HIGH_'})
                 try:
+                    want = ast.parse(ref, mode='eval').body
+                    for idx, nm in ((0, 'LOW_'), (1, 'HIGH_')):
+                        want = _subst(want, nm, ast.parse(
+                            kids[idx], mode='eval').body)
                     got = ast.parse(text, mode='eval').body
                 except SyntaxError:
                     r.fail(Finding(PROP, 'R-BP-4', f.where(), f.short(),
@@ -716,13 +776,18 @@ def _subst(tree, name, repl):
 
 
 def run(prog, tier, seed):
+    T = Attempts()
     seeds, funcs = parser_functions(prog)
-    r1, results = rule_bp1(prog, funcs)
-    r2 = rule_bp2(prog, results)
-    r2b = rule_bp2b(prog, results)
-    r3 = rule_bp3(prog, funcs, seeds)
-    r4 = rule_bp4(prog)
-    r5 = rule_bp5(prog, funcs, seeds)
+    r1, results = T(rule_bp1, prog, funcs, _n=2)
+    if results is not None:
+        r2 = T(rule_bp2, prog, results)
+        r2b = T(rule_bp2b, prog, results)
+    else:
+        r2 = r2b = None
+        T.skipped('R-BP-2 / R-BP-2b')
+    r3 = T(rule_bp3, prog, funcs, seeds)
+    r4 = T(rule_bp4, prog)
+    r5 = T(rule_bp5, prog, funcs, seeds)
     expl = ('The expression parser of the OBDD module is interpreted '
             'abstractly per function: every path returns an OBDD-valued '
             'expression or raises SyntaxError (no fall-through None); the '
@@ -738,4 +803,4 @@ def run(prog, tier, seed):
     assumptions = ['ast field types: Name.id and arg.arg are str; id() is '
                    'int', 'Python\'s ast.parse is the parser the library '
                    'itself uses']
-    return [r1, r2, r2b, r3, r4, r5], expl, assumptions, {}
+    return T.results(r1, r2, r2b, r3, r4, r5), expl, assumptions, T.extra()
